@@ -413,8 +413,8 @@ func ReadWeatherCSV(VWDAT string, startyear int, g *GlobalVarsMain, s *WeatherDa
 			T = d.datetime.YearDay()
 			yrz = 1
 		} else if d.datetime.Day() == 1 && d.datetime.Month() == time.January {
-			// the previous year has to be complete: its last record is the 31st of December
-			if s.MaxYearDays[yrz-1] != time.Date(d.datetime.Year()-1, time.December, 31, 0, 0, 0, 0, time.UTC).YearDay() {
+			// the previous year has to be complete: its last record is the 31st of December of the year before this one
+			if s.JAR[yrz-1] != d.datetime.Year()-1 || s.MaxYearDays[yrz-1] != time.Date(d.datetime.Year()-1, time.December, 31, 0, 0, 0, 0, time.UTC).YearDay() {
 				return fmt.Errorf("%s Failed to parse file: %s, error: missing days", g.LOGID, VWDAT)
 			}
 			T = 1
@@ -555,8 +555,8 @@ func ReadWeatherCZ(VWDAT string, startyear int, g *GlobalVarsMain, s *WeatherDat
 			T = d.datetime.YearDay()
 			yrz = 1
 		} else if d.datetime.Day() == 1 && d.datetime.Month() == time.January {
-			// the previous year has to be complete: its last record is the 31st of December
-			if s.MaxYearDays[yrz-1] != time.Date(d.datetime.Year()-1, time.December, 31, 0, 0, 0, 0, time.UTC).YearDay() {
+			// the previous year has to be complete: its last record is the 31st of December of the year before this one
+			if s.JAR[yrz-1] != d.datetime.Year()-1 || s.MaxYearDays[yrz-1] != time.Date(d.datetime.Year()-1, time.December, 31, 0, 0, 0, 0, time.UTC).YearDay() {
 				return fmt.Errorf("%s Failed to parse file: %s, error: missing days", g.LOGID, VWDAT)
 			}
 			T = 1
